@@ -84,6 +84,21 @@ theorem c09_x_written_only_on_success :
 /-- `sendBulkToStores` stops at the first shard whose `Bulk` returned nil -/
 theorem c09_x_break_on_success : sendBulkBreakConds = ["err == nil"] := by decide
 
+/-- every bulk starts from a write status of its own: `StoreDocuments` initialises it once from
+`newBulkWriteStatus`, hands exactly that value to every `storeDocs` attempt, and the constructors allocate
+(`coldWritten: false`, `make([]bool, ..)`) - the all-false initial state `SV.Replica.storeDocuments` starts from.
+Nothing of an earlier bulk can count for a later one. -/
+theorem c09_x_write_status_fresh_per_bulk :
+    writeStatusInits = ["writeStatus := newBulkWriteStatus"] ∧ writeStatusPassed = ["writeStatus"] ∧
+      newBulkWriteStatusBody = ["return &bulkWriteStatus{ coldWritten: false, hotStoresWS: newStoresWriteStatus(hotShardsCnt, hotReplicasCnt), writeStoresWS: newStoresWriteStatus(writeShardsCnt, writeReplicasCnt), }"] ∧
+      newStoresWriteStatusBody = ["return &storesWriteStatus{ replicasCnt: replicasCnt, statuses: make([]bool, shardsCnt*replicasCnt), }"] :=
+  ⟨rfl, rfl, rfl, rfl⟩
+
+/-- a replica call counts as accepted (nil) only when the gRPC call itself returned no error: `sendBulkToHost`
+returns an error under `err != nil` and nil only at top level - no error kind is mapped to success -/
+theorem c09_x_host_nil_only_on_success :
+    sendBulkToHostReturns = ["err != nil => fmt.Errorf", " => nil"] := by decide
+
 /-! ## Non-vacuity: the hypotheses are met by concrete non-trivial runs -/
 
 /-- 1 hot shard x 2 replicas: first attempt half-fails, second attempt completes the same shard -> acknowledged -/
